@@ -170,7 +170,38 @@ def start_prob(eng, res, rule="R-START-PROB"):
     res.ob(rule, init, "initial-log-prob", "a started match carries log(initial probability)", init.node, ok)
 
 
+def match_copy(eng, res, rule="R-MATCH-COPY"):
+    """Search states are independent: copy() is a plain deep copy (no memo that would share sub-objects), so the
+    de-duplication by equality in get_prob can only ever merge a state with itself."""
+    ci = eng.prog.cls("PossibleMatch")
+    f = ci.method("copy")
+    if f is None:
+        raise AnalysisError("PossibleMatch.copy not found")
+    res.unit(f)
+    fl = eng.flow(f)
+    dc = [c for c in calls(f) if callee_name(c) == "deepcopy"]
+    ok = len(dc) == 1 and len(dc[0].args) == 1 and not dc[0].keywords and src(dc[0].args[0]) == f.params[0]
+    res.ob(rule, f, "plain-deepcopy", "a search copy is copy.deepcopy(self) with nothing shared between the copies", dc[0] if dc else f.node, ok,
+           f"deepcopy called as {src(dc[0])[:80] if dc else None}")
+    rets = [r for r in own_nodes(f.node) if isinstance(r, ast.Return) and r.value is not None]
+    ok = len(rets) == 1 and isinstance(rets[0].value, ast.Name) and dc and any(d.value is dc[0] for d in fl.reaching(rets[0].value.id, fl.cfg.node_of(rets[0])))
+    res.ob(rule, f, "returns-the-copy", "the copy (with the adjusted probability) is what is returned", f.node, ok)
+    adj = [n for n in own_nodes(f.node) if isinstance(n, ast.AugAssign) and src(n.target).endswith("._log_prob")]
+    ok = len(adj) == 1 and isinstance(adj[0].op, ast.Add) and src(adj[0].value) == f"np.log({f.params[1]})"
+    res.ob(rule, f, "probability-adjusted-once", "the copy's log-probability is increased by log(adjustment) exactly once", f.node, ok)
+    dm = [m for m in ("__deepcopy__", "__copy__", "__reduce__", "__getstate__") if ci.method(m) is not None]
+    res.ob(rule, ci.qualname, "no-custom-copy-protocol", "PossibleMatch defines no custom copy protocol", "-", not dm, f"{dm}")
+    eq = ci.method("__eq__")
+    if eq is not None:
+        for n in own_nodes(eq.node):
+            if isinstance(n, ast.Compare) and len(n.ops) == 1 and src(n.left) == src(n.comparators[0]):
+                res.info(f"{eq.module.relpath}:{n.lineno} PossibleMatch.__eq__ compares `{src(n.left)}` with itself (always equal): the accumulated masses do not take part in equality. "
+                         "Harmless while every copy owns its own `_big` (identity comparison fails first); it becomes a defect as soon as copies share it")
+
+
 def check(eng, res):
+    res.doc("R-MATCH-COPY", "search copies are plain deep copies (independent states)")
+    res.doc("R-DRAW-PARAMS", "prob_mw's cdf / pmf calls receive the family's own parameters (C11)")
     res.doc("R-MASS-ACCOUNT", "which masses are accumulated per element: plain tokens and repeat units only (cross-check with the generator's law, C07)")
     res.doc("R-PROB-PRODUCT", "final log-probability = path log-probability + Σ over stochastic elements of log prob_mw(interval accumulator)")
     res.doc("R-START-PROB", "start fragments' probabilities: 1 for a prefix token; end groups' descriptor weights / their sum")
@@ -180,5 +211,7 @@ def check(eng, res):
     prob_product(eng, res)
     start_prob(eng, res)
     c11.interval(eng, res)
+    c11.draw_params(eng, res)
+    match_copy(eng, res)
     res.assumptions += ["RDKit substructure matching enumerates the embeddings of a fragment"]
     res.not_decided += ["equality of the two numbers for all molecules", "the sum over the ensemble being 1", "atom-order invariance (RDKit substructure matching)", "reaction probabilities for objects with several repeat units"]
